@@ -13,6 +13,7 @@ from typing import Dict, List, Tuple
 from .. import effects
 from ..db import DB
 from ..hostir import HostInterp
+from ..tables.config_tables import infeasible
 
 
 def live_in(db: DB, hi: HostInterp) -> Tuple[Dict[str, dict], Dict[str, List[str]], int]:
@@ -21,6 +22,8 @@ def live_in(db: DB, hi: HostInterp) -> Tuple[Dict[str, dict], Dict[str, List[str
   live: Dict[str, dict] = {}
   writers: Dict[str, List[str]] = {}
   for e in effs:
+    if infeasible(e.ev.pc):
+      continue  # path requires a configuration that put_model rejects
     for k, loc in e.reads.items():
       if e.writes.get(k) == "w":
         continue  # the same kernel (re)writes the field: intra-kernel order is not tracked (may-define)
